@@ -36,6 +36,7 @@ type vrfDoer struct {
 	rawPath string
 	hasBody bool
 	calls   int
+	answer  []byte // when non-nil: the body of the 200 response
 	req     *http.Request
 }
 
@@ -100,7 +101,43 @@ func (d *vrfDoer) Do(req *http.Request) (*http.Response, error) {
 	d.rawPath = req.URL.EscapedPath()
 	d.hasBody = req.Body != nil && req.Body != http.NoBody
 	d.req = req
+	if d.answer != nil {
+		return &http.Response{StatusCode: 200, Status: "200 OK", Body: &vrf.ByteSource{Data: d.answer}}, nil
+	}
 	return &http.Response{StatusCode: 200, Status: "200 OK", Body: http.NoBody}, nil
+}
+
+// VerifC14ClientSource: GetMessageSource gives the caller exactly what the server answered with -
+// a body of arbitrary length up to 16 MiB whose content is not inspected (mode 0), or a short body
+// with arbitrary content (mode 1).
+func VerifC14ClientSource(mode int) {
+	var body []byte
+	if mode == 0 {
+		body = vrf.LenOnly("body")
+		vrf.Assume(len(body) >= 1 && len(body) <= 16<<20)
+	} else {
+		body = vrf.Bytes("body", 6)
+	}
+	d := &vrfDoer{answer: body}
+	base, _ := url.Parse("http://h:9000/")
+	c := &Client{restClient{client: d, baseURL: base}}
+	buf, err := c.GetMessageSource("box", "7")
+	vrf.Cover("source-fetched")
+	vrf.Assert("source-noerr", err == nil && buf != nil)
+	if err != nil || buf == nil {
+		return
+	}
+	vrf.Assert("source-length-is-what-the-server-sent", buf.Len() == len(body))
+	if mode == 1 {
+		got := buf.Bytes()
+		same := len(got) == len(body)
+		for i := 0; same && i < len(body); i++ {
+			if got[i] != body[i] {
+				same = false
+			}
+		}
+		vrf.Assert("source-bytes-are-what-the-server-sent", same)
+	}
 }
 
 // VerifC14Client: every client operation issues the request the server's route for that operation
